@@ -328,10 +328,11 @@ Proof. vm_compute. repeat split; reflexivity. Qed.
 (* ================================================================== nestedcrdtimpl *)
 (* the generated archetype ACRDTResource with the grow-only counter the deployment plugs into the spec's CONSTANT
    operators, driven by the spec's Node process *)
-From PGV Require C16.Nested C16.NestedProofs C16.NestedProofs2.
+From PGV Require C16.Nested C16.NestedProofs C16.NestedProofs2 C16.NestedProofs3.
 Module Ne := PGV.C16.Nested.
 Module NeP := PGV.C16.NestedProofs.
 Module NeP2 := PGV.C16.NestedProofs2.
+Module NeP3 := PGV.C16.NestedProofs3.
 
 (* the spec's MonotonicState: in every step (every configuration, every interleaving, every branch of the `either`,
    every target of the `with`) no component of any replica's state decreases *)
@@ -382,9 +383,16 @@ Theorem nested_node_assertion_free : forall g evs n br, 1 <= n <= Ne.K g ->
 Proof. intros g evs n br Hn. exact (NeP2.node_assertion_free_lemma g _ n br (NeP.exec_reachable g evs) Hn). Qed.
 Print Assumptions nested_node_assertion_free.
 
-(* not proved: absence of TypeError in ACRDTResource's send (the chosen target is a resource id) — oracle only *)
-Definition nested_type_safe_statement : Prop :=
-  forall g evs e, Ne.step g (Ne.exec g evs) e <> Ne.TypeError.
+(* no TLA+ type error: the target ACRDTResource's `with (target \in remainingPeersToUpdate)` chooses is always a resource
+   id (remainingPeersToUpdate only ever holds peers), so net[target] is defined — for every configuration and interleaving *)
+Theorem nested_type_safe : forall g evs e, Ne.step g (Ne.exec g evs) e <> Ne.TypeError.
+Proof. intros g evs e. exact (NeP3.type_safe_lemma g _ e (NeP.exec_reachable g evs)). Qed.
+Print Assumptions nested_type_safe.
+
+Theorem nested_remaining_peers_are_resources : forall g evs r t,
+  In t (Ne.rem_ (Ne.exec g evs) r) -> In t (Ne.resources g).
+Proof. intros g evs. exact (NeP3.rinv_reachable g _ (NeP.exec_reachable g evs)). Qed.
+Print Assumptions nested_remaining_peers_are_resources.
 
 Example nested_nonvacuous :
   let g := Ne.mkCfg 2 1 1 in
@@ -433,4 +441,51 @@ Example replicatedkv_nonvacuous :
                       Rk.EDisc 3; Rk.EDisc 3] in
   Rk.pend (Rk.rep s 0) 1 = [Rk.MGet 0 1 1 1] /\ Rk.rpc_ (Rk.rep s 0) = Rk.RPutReq /\
   Rk.clocks s 1 = None /\ Rk.repNet s 0 = [Rk.MDisc 1].
+Proof. vm_compute. repeat split; reflexivity. Qed.
+
+(* ================================================================== the *.gotests programs (pgo/test/files/general) *)
+From PGV Require C16.GtIndexing C16.GtNonDet.
+Module GI := PGV.C16.GtIndexing.
+Module GN := PGV.C16.GtNonDet.
+
+(* IndexingLocals.tla: no indexed write leaves DOMAIN and no field write hits a number (the TLA+ type errors the runtime
+   would report); it always can finish, and when it has, log = <<3, 21, 999, [foo |-> 43]>> and p = 3 *)
+Theorem gotests_indexinglocals_type_safe : forall evs e, GI.step (GI.exec evs) e <> GI.TypeError.
+Proof. exact GI.type_safe_lemma. Qed.
+Print Assumptions gotests_indexinglocals_type_safe.
+
+Theorem gotests_indexinglocals_result : forall evs, GI.pc (GI.exec evs) = GI.IDone ->
+  GI.log (GI.exec evs) = [GI.INum 3; GI.INum 21; GI.INum 999; GI.IFoo 43] /\ GI.p (GI.exec evs) = Some (GI.INum 3).
+Proof. exact GI.result_lemma. Qed.
+Print Assumptions gotests_indexinglocals_result.
+
+Theorem gotests_indexinglocals_can_finish : forall evs, exists evs', GI.pc (GI.run (GI.exec evs) evs') = GI.IDone.
+Proof. exact GI.terminates_lemma. Qed.
+Print Assumptions gotests_indexinglocals_can_finish.
+
+(* NonDetExploration.tla: ACoverage and ACoincidence have no assertion to fail. AComplex's
+   `assert \A a \in TheSet : a \in mark` fails EXACTLY when its with chose the same element all 20 times (the spec's own
+   comment: "with high probability (1 - 2 / 2^20) this assertion is true") — so "no assertion written in the
+   specification fails" is false for this program, by the spec's design; the witness is replayed on the generated code
+   (corpus/C16/gotests_nondet_complex_same_element.json). *)
+Theorem gotests_nondet_assertion_fails_exactly_when : forall evs e,
+  GN.step (GN.exec evs) e = GN.AssertFail <->
+  (exists a, e = GN.ECx a) /\ GN.cx (GN.exec evs) = GN.XLoop /\
+  exists b, (b = 1 \/ b = 2) /\ GN.picked (GN.exec evs) = repeat b GN.LIMIT.
+Proof. intros evs e. exact (GN.assert_iff_lemma _ e (GN.exec_reachable evs)). Qed.
+Print Assumptions gotests_nondet_assertion_fails_exactly_when.
+
+Theorem gotests_nondet_complex_assertion_free_refuted : exists evs e, GN.step (GN.exec evs) e = GN.AssertFail.
+Proof. exists GN.all_same_witness, (GN.ECx 0). exact GN.assert_reachable_lemma. Qed.
+Print Assumptions gotests_nondet_complex_assertion_free_refuted.
+
+Theorem gotests_nondet_coverage_coincidence_assertion_free : forall evs e, (forall a, e <> GN.ECx a) ->
+  GN.step (GN.exec evs) e <> GN.AssertFail.
+Proof. intros evs e. exact (GN.other_archetypes_assertion_free _ e (GN.exec_reachable evs)). Qed.
+Print Assumptions gotests_nondet_coverage_coincidence_assertion_free.
+
+Example gotests_nonvacuous :
+  let s := GN.exec GN.finishing_run in
+  GN.cov s = GN.CDone /\ GN.coin s = GN.KDone /\ GN.cx s = GN.XDone /\ GN.xi s = 20 /\
+  GI.pc (GI.exec [0; 0; 0; 0]) = GI.IDone.
 Proof. vm_compute. repeat split; reflexivity. Qed.
